@@ -19,7 +19,7 @@ Definition erase {I} (s : sc I) : sc unit :=
      sc_stream_start := sc_stream_start s; sc_stream_end := sc_stream_end s; sc_adjacent := sc_adjacent s;
      sc_ska := sc_ska s; sc_sks := sc_sks s; sc_indent := sc_indent s; sc_indents := sc_indents s;
      sc_flow_level := sc_flow_level s; sc_tokens_parsed := sc_tokens_parsed s;
-     sc_token_available := sc_token_available s; sc_lws := sc_lws s; sc_fms := sc_fms s; sc_ifms := sc_ifms s |}.
+     sc_token_available := sc_token_available s; sc_lws := sc_lws s; sc_ifms := sc_ifms s |}.
 
 (* the state relation: same skeleton, and the buffered input holds exactly the string input's remaining characters *)
 Definition SR (s1 : st1) (s2 : st2) : Prop := Rel (sc_in s1) (sc_in s2) /\ erase s1 = erase s2.
@@ -33,7 +33,7 @@ Lemma erase_fields {I J} (s : sc I) (t : sc J) : erase s = erase t ->
   /\ sc_stream_end s = sc_stream_end t /\ sc_adjacent s = sc_adjacent t /\ sc_ska s = sc_ska t
   /\ sc_sks s = sc_sks t /\ sc_indent s = sc_indent t /\ sc_indents s = sc_indents t
   /\ sc_flow_level s = sc_flow_level t /\ sc_tokens_parsed s = sc_tokens_parsed t
-  /\ sc_token_available s = sc_token_available t /\ sc_lws s = sc_lws t /\ sc_fms s = sc_fms t
+  /\ sc_token_available s = sc_token_available t /\ sc_lws s = sc_lws t
   /\ sc_ifms s = sc_ifms t.
 Proof. unfold erase. intros H. inversion H. repeat split; assumption. Qed.
 
